@@ -514,3 +514,256 @@ pub proof fn lemma_enter_effect(w: World, wf: World, l0: AssetLedger, amount_in:
         assert(w2.calls =~= w.calls + aops_calls(tok, enter_ops(w, wf, amount_in, assets, from, operator)));
     }
 }
+
+// ---- the token operations behind withdraw / redeem: `pre` balance queries, then the transfer out ----
+pub open spec fn exit_ops(pre: Seq<AOp>, this: Address, receiver: Address, assets: i128) -> Seq<AOp> {
+    pre.push(AOp::Transfer { from: this, to: receiver, amount: assets })
+}
+/// withdraw_internal on world `wm` (the world after auth and previews): exact effect on the share book, the
+/// share allowance, and - given the asset ledger `lm` at the time of the transfer - on the asset ledger
+pub proof fn lemma_exit_effect(wm: World, wf: World, lm: AssetLedger, receiver: Address, owner: Address, assets: i128, shares: i128, operator: Address)
+    requires
+        inv(wm), wm.ledger_ok(), ledger_inv(lm),
+        withdraw_internal_guard(wm, owner, shares, operator),
+        aop_ok(lm, AOp::Transfer { from: wm.this, to: receiver, amount: assets }),
+    ensures
+        ({
+            let w2 = withdraw_internal_post(wm, wf, receiver, owner, assets, shares, operator);
+            let l1 = aop_next(lm, AOp::Transfer { from: wm.this, to: receiver, amount: assets });
+            //@@ C01+C05:lemma.exit_burns_exactly_shares_from_owner
+            &&& inv(w2) && supply(w2) == supply(wm) - shares && 0 <= shares <= bal(wm, owner) && bal(wm, owner) <= supply(wm)
+            &&& forall|a: Address| #[trigger] bal(w2, a) == bal(wm, a) - (if a == owner { shares as int } else { 0 })
+            &&& cur_offset(w2) == cur_offset(wm) && cur_asset(w2) == cur_asset(wm) && w2.this == wm.this
+            //@@ C02+C05:lemma.exit_by_operator_spends_share_allowance
+            &&& operator != owner ==> allowance(wm, owner, operator) >= shares && allowance(w2, owner, operator) == allowance(wm, owner, operator) - shares
+            &&& w2.auths == wm.auths && w2.events == wm.events
+            //@@ C05:lemma.exit_calls_are_the_token_ops
+            &&& w2.calls == wm.calls.push(aop_call(cur_asset(wm).unwrap(), AOp::Transfer { from: wm.this, to: receiver, amount: assets }))
+            //@@ C05:lemma.exit_moves_exactly_assets_from_vault_to_receiver
+            &&& ledger_inv(l1) && 0 <= assets <= abal(lm, wm.this)
+            &&& forall|a: Address| #[trigger] abal(l1, a) == abal(lm, a) - (if a == wm.this { assets as int } else { 0 }) + (if a == receiver { assets as int } else { 0 })
+        }),
+{
+    let ws = wi_spent(wm, owner, shares, operator);
+    let wb = wi_burnt(wm, owner, shares, operator);
+    let w2 = withdraw_internal_post(wm, wf, receiver, owner, assets, shares, operator);
+    if operator != owner {
+        lemma_spend(wm, owner, operator, shares);
+    }
+    lemma_store_frame(wm, ws);
+    lemma_update_inv(ws, Some(owner), None, shares as int);
+    lemma_update_keeps_config(ws, Some(owner), None, shares as int);
+    lemma_inv_bal_nonneg(wm, owner);
+    lemma_store_frame(wb, w2);
+    assert forall|a: Address| #[trigger] bal(w2, a) == bal(wm, a) - (if a == owner { shares as int } else { 0 }) by {
+        assert(bal(w2, a) == bal(wb, a));
+        assert(bal(ws, a) == bal(wm, a));
+    }
+    if operator != owner {
+        lemma_update_allow_frame(ws, Some(owner), None, shares as int, owner, operator);
+        assert(allow_data(w2, owner, operator) == allow_data(wb, owner, operator));
+    }
+    lemma_aop_effect(lm, AOp::Transfer { from: wm.this, to: receiver, amount: assets });
+}
+
+// =================================================================================================
+// Step lemmas: every operation leaves the rate (A+1)/(S+10^off) unchanged or higher.
+// Hypotheses, all explicit: the fungible invariant of the share book (C01), an asset ledger l0 on which the
+// recorded token calls are SEP-41-conformant, and for deposit / mint: the payer is not the vault itself
+// (a vault paying itself would mint shares against no new assets; it cannot authorize that: the vault never
+// approves anybody on the asset and cannot satisfy its own require_auth as an invoker).
+// =================================================================================================
+pub open spec fn rate_step(w: World, l0: AssetLedger, w2: World, l1: AssetLedger) -> bool {
+    &&& virt_shares(w) > 0 && virt_shares(w2) > 0 && abal(l0, w.this) >= 0 && abal(l1, w2.this) >= 0
+    &&& rate_le(abal(l0, w.this) + 1, virt_shares(w), abal(l1, w2.this) + 1, virt_shares(w2))
+}
+
+pub proof fn lemma_deposit_rate(w: World, wf: World, l0: AssetLedger, assets: i128, shares: i128, receiver: Address, from: Address, operator: Address)
+    requires
+        inv(w), ledger_inv(l0), from != w.this,
+        conv_shares_rel(w_auth(w, operator), wf, assets, Rounding::Floor, shares),
+        enter_guard(w, wf, assets, receiver, shares, operator),
+        aops_ok(l0, enter_ops(w, wf, assets, assets, from, operator)),
+    ensures
+        ({
+            let w2 = enter_post(w, wf, assets, assets, shares, receiver, from, operator);
+            let l1 = aops_run(l0, enter_ops(w, wf, assets, assets, from, operator));
+            //@@ C05:step.deposit_rate_not_lower
+            &&& rate_step(w, l0, w2, l1)
+            //@@ C05:step.deposit_shares_received_at_most_fair
+            &&& shares * (abal(l0, w.this) + 1) <= assets * virt_shares(w)
+            &&& abal(l1, w.this) == abal(l0, w.this) + assets && virt_shares(w2) == virt_shares(w) + shares
+        }),
+{
+    lemma_enter_effect(w, wf, l0, assets, assets, shares, receiver, from, operator);
+    lemma_pow10(cur_offset(w) as nat);
+    lemma_store_frame(w, w_auth(w, operator));
+    let ap = abal(l0, w.this) + 1;
+    let sp = virt_shares(w);
+    assert(abal(l0, w.this) >= 0);
+    if assets != 0 {
+        lemma_rate_deposit(assets as int, ap, sp, shares as int);
+    } else {
+        assert(rate_le(ap, sp, ap, sp));
+        assert(0 * ap == 0 && 0 * sp == 0) by(nonlinear_arith);
+    }
+}
+
+pub proof fn lemma_mint_rate(w: World, wf: World, l0: AssetLedger, assets: i128, shares: i128, receiver: Address, from: Address, operator: Address)
+    requires
+        inv(w), ledger_inv(l0), from != w.this,
+        conv_assets_rel(w_auth(w, operator), wf, shares, Rounding::Ceil, assets),
+        enter_guard(w, wf, shares, receiver, shares, operator),
+        aops_ok(l0, enter_ops(w, wf, shares, assets, from, operator)),
+    ensures
+        ({
+            let w2 = enter_post(w, wf, shares, assets, shares, receiver, from, operator);
+            let l1 = aops_run(l0, enter_ops(w, wf, shares, assets, from, operator));
+            //@@ C05:step.mint_rate_not_lower
+            &&& rate_step(w, l0, w2, l1)
+            //@@ C05:step.mint_assets_paid_at_least_fair
+            &&& assets * virt_shares(w) >= shares * (abal(l0, w.this) + 1)
+            &&& abal(l1, w.this) == abal(l0, w.this) + assets && virt_shares(w2) == virt_shares(w) + shares
+        }),
+{
+    lemma_enter_effect(w, wf, l0, shares, assets, shares, receiver, from, operator);
+    lemma_pow10(cur_offset(w) as nat);
+    lemma_store_frame(w, w_auth(w, operator));
+    let ap = abal(l0, w.this) + 1;
+    let sp = virt_shares(w);
+    assert(abal(l0, w.this) >= 0);
+    if shares != 0 {
+        lemma_rate_mint(shares as int, ap, sp, assets as int);
+    } else {
+        assert(rate_le(ap, sp, ap, sp));
+        assert(0 * ap == 0 && 0 * sp == 0) by(nonlinear_arith);
+    }
+}
+
+/// what leaves the vault's balance when `assets` are sent to `receiver`
+pub open spec fn out_of_vault(this: Address, receiver: Address, assets: i128) -> int { if receiver == this { 0 } else { assets as int } }
+
+pub proof fn lemma_rate_exit_arith(a: int, d: int, ap: int, sp: int, s: int)
+    requires ap > 0, sp > 0, s >= 0, d == a || d == 0, a >= 0, s * ap >= a * sp,
+    ensures rate_le(ap, sp, ap - d, sp - s),
+{
+    assert(a * sp >= 0) by(nonlinear_arith) requires a >= 0, sp > 0;
+    assert(ap * (sp - s) <= (ap - d) * sp) by(nonlinear_arith) requires s * ap >= a * sp, d == a || d == 0, a * sp >= 0, s * ap >= 0;
+}
+
+/// balance queries before the transfer out of withdraw(assets, owner)
+pub open spec fn withdraw_pre_ops(w: World, wf: World, assets: i128, owner: Address, operator: Address) -> Seq<AOp> {
+    let w1 = w_auth(w, operator);
+    let q1 = if bal(w1, owner) as i128 != 0 { seq![AOp::Balance { id: w.this, answer: obs(w1, wf, 0) }] } else { Seq::<AOp>::empty() };
+    let w2 = conv_post(w1, wf, bal(w1, owner) as i128);
+    if assets != 0 { q1.push(AOp::Balance { id: w.this, answer: obs(w2, wf, 0) }) } else { q1 }
+}
+pub open spec fn redeem_pre_ops(w: World, wf: World, shares: i128, operator: Address) -> Seq<AOp> {
+    if shares != 0 { seq![AOp::Balance { id: w.this, answer: obs(w_auth(w, operator), wf, 0) }] } else { Seq::<AOp>::empty() }
+}
+
+pub proof fn lemma_redeem_rate(w: World, wf: World, l0: AssetLedger, assets: i128, shares: i128, receiver: Address, owner: Address, operator: Address)
+    requires
+        inv(w), w.ledger_ok(), ledger_inv(l0),
+        conv_assets_rel(w_auth(w, operator), wf, shares, Rounding::Floor, assets),
+        withdraw_internal_guard(redeem_mid(w, wf, shares, operator), owner, shares, operator),
+        aops_ok(l0, exit_ops(redeem_pre_ops(w, wf, shares, operator), w.this, receiver, assets)),
+    ensures
+        ({
+            let w2 = redeem_post(w, wf, assets, shares, receiver, owner, operator);
+            let l1 = aops_run(l0, exit_ops(redeem_pre_ops(w, wf, shares, operator), w.this, receiver, assets));
+            //@@ C05:step.redeem_rate_not_lower
+            &&& rate_step(w, l0, w2, l1)
+            //@@ C05:step.redeem_assets_received_at_most_fair
+            &&& assets * virt_shares(w) <= shares * (abal(l0, w.this) + 1)
+            &&& inv(w2) && w2.ledger_ok()
+            &&& abal(l1, w.this) == abal(l0, w.this) - out_of_vault(w.this, receiver, assets) && virt_shares(w2) == virt_shares(w) - shares
+            &&& ledger_inv(l1)
+        }),
+{
+    let w1 = w_auth(w, operator);
+    let wm = redeem_mid(w, wf, shares, operator);
+    let this = w.this;
+    let ot = AOp::Transfer { from: this, to: receiver, amount: assets };
+    let e0 = Seq::<AOp>::empty();
+    lemma_store_frame(w, w1);
+    lemma_store_frame(w, wm);
+    lemma_pow10(cur_offset(w) as nat);
+    assert(aops_run(l0, e0) == l0 && aops_ok(l0, e0));
+    let ap = abal(l0, this) + 1;
+    let sp = virt_shares(w);
+    assert(abal(l0, this) >= 0);
+    if shares != 0 {
+        let ob = AOp::Balance { id: this, answer: obs(w1, wf, 0) };
+        assert(seq![ob] =~= e0.push(ob));
+        lemma_aops_push(l0, e0, ob);
+        lemma_aops_push(l0, e0.push(ob), ot);
+        assert(aops_run(l0, e0.push(ob)) == l0);
+        lemma_rate_redeem(shares as int, ap, sp, assets as int);
+    } else {
+        lemma_aops_push(l0, e0, ot);
+        assert(0 * ap == 0 && 0 * sp == 0) by(nonlinear_arith);
+    }
+    lemma_exit_effect(wm, wf, l0, receiver, owner, assets, shares, operator);
+    let wi = withdraw_internal_post(wm, wf, receiver, owner, assets, shares, operator);
+    let w2 = redeem_post(w, wf, assets, shares, receiver, owner, operator);
+    lemma_store_frame(wi, w2);
+    lemma_rate_exit_arith(assets as int, out_of_vault(this, receiver, assets), ap, sp, shares as int);
+}
+
+pub proof fn lemma_withdraw_rate(w: World, wf: World, l0: AssetLedger, assets: i128, shares: i128, receiver: Address, owner: Address, operator: Address)
+    requires
+        inv(w), w.ledger_ok(), ledger_inv(l0),
+        conv_shares_rel(conv_post(w_auth(w, operator), wf, bal(w, owner) as i128), wf, assets, Rounding::Ceil, shares),
+        withdraw_internal_guard(withdraw_mid(w, wf, assets, owner, operator), owner, shares, operator),
+        aops_ok(l0, exit_ops(withdraw_pre_ops(w, wf, assets, owner, operator), w.this, receiver, assets)),
+    ensures
+        ({
+            let w2 = withdraw_post(w, wf, assets, shares, receiver, owner, operator);
+            let l1 = aops_run(l0, exit_ops(withdraw_pre_ops(w, wf, assets, owner, operator), w.this, receiver, assets));
+            //@@ C05:step.withdraw_rate_not_lower
+            &&& rate_step(w, l0, w2, l1)
+            //@@ C05:step.withdraw_shares_paid_at_least_fair
+            &&& shares * (abal(l0, w.this) + 1) >= assets * virt_shares(w)
+            &&& inv(w2) && w2.ledger_ok()
+            &&& abal(l1, w.this) == abal(l0, w.this) - out_of_vault(w.this, receiver, assets) && virt_shares(w2) == virt_shares(w) - shares
+            &&& ledger_inv(l1)
+        }),
+{
+    let w1 = w_auth(w, operator);
+    let wq = conv_post(w1, wf, bal(w1, owner) as i128);
+    let wm = withdraw_mid(w, wf, assets, owner, operator);
+    let this = w.this;
+    let ot = AOp::Transfer { from: this, to: receiver, amount: assets };
+    let e0 = Seq::<AOp>::empty();
+    lemma_store_frame(w, w1);
+    lemma_store_frame(w, wq);
+    lemma_store_frame(w, wm);
+    lemma_pow10(cur_offset(w) as nat);
+    assert(aops_run(l0, e0) == l0 && aops_ok(l0, e0));
+    let ap = abal(l0, this) + 1;
+    let sp = virt_shares(w);
+    assert(abal(l0, this) >= 0);
+    let q1 = if bal(w1, owner) as i128 != 0 { seq![AOp::Balance { id: this, answer: obs(w1, wf, 0) }] } else { e0 };
+    if bal(w1, owner) as i128 != 0 {
+        let o1 = AOp::Balance { id: this, answer: obs(w1, wf, 0) };
+        assert(seq![o1] =~= e0.push(o1));
+        lemma_aops_push(l0, e0, o1);
+    }
+    assert(aops_run(l0, q1) == l0);
+    if assets != 0 {
+        let ob = AOp::Balance { id: this, answer: obs(wq, wf, 0) };
+        lemma_aops_push(l0, q1, ob);
+        lemma_aops_push(l0, q1.push(ob), ot);
+        assert(aops_run(l0, q1.push(ob)) == l0);
+        lemma_rate_withdraw(assets as int, ap, sp, shares as int);
+    } else {
+        lemma_aops_push(l0, q1, ot);
+        assert(0 * ap == 0 && 0 * sp == 0) by(nonlinear_arith);
+    }
+    lemma_exit_effect(wm, wf, l0, receiver, owner, assets, shares, operator);
+    let wi = withdraw_internal_post(wm, wf, receiver, owner, assets, shares, operator);
+    let w2 = withdraw_post(w, wf, assets, shares, receiver, owner, operator);
+    lemma_store_frame(wi, w2);
+    lemma_rate_exit_arith(assets as int, out_of_vault(this, receiver, assets), ap, sp, shares as int);
+}
